@@ -259,6 +259,38 @@ def bases_events(ctx, quick):
     return ev
 
 
+UPB_SCALE = 2000
+
+
+def upbnum_events(ctx, quick):
+    """bipartite UPB kinds whose vectors are not single-radical (Fourier vectors of the generalised tiles, quadratic residues): the outputs
+    rounded at scale UPB_SCALE, validated by Trace_Catalogue 'upbnum' events; several sizes per kind incl. the smallest and larger ones"""
+    import numqi
+    from .c10 import _g, _gram
+    E = numqi.entangle
+    kinds = [('gentiles2', (3, 4)), ('gentiles2', (3, 5)), ('gentiles2', (4, 5)), ('gentiles1', 4), ('gentiles1', 6), ('quadres', 3)] + ([] if quick else [('gentiles2', (4, 6)), ('gentiles2', (5, 5)), ('gentiles1', 8), ('quadres', 7)])
+    ev = []
+    for kind, args in kinds:
+        ctx.case(('upbnum', kind, args))
+        try:
+            upb, bes = E.load_upb(kind, args, return_bes=True, ignore_warning=True)
+            if len(upb) != 2:
+                continue
+            A, B = np.asarray(upb[0], dtype=complex), np.asarray(upb[1], dtype=complex)
+            n, dA, dB = len(A), A.shape[1], B.shape[1]
+            D = dA * dB
+            prod = (A[:, :, None] * B[:, None, :]).reshape(n, D)
+            bes = np.asarray(bes, dtype=complex)
+            pt = bes.reshape(dA, dB, dA, dB).transpose(0, 3, 2, 1).reshape(D, D)
+            claims = [dict(tag='hermitian', c='hermitian', M=_g(bes, UPB_SCALE)), dict(tag='trace1', c='trace1', M=_g(bes, UPB_SCALE)),
+                      dict(tag='gram', c='gram', M=_g(bes, UPB_SCALE), A=_g(_gram(bes, D - n), UPB_SCALE), cols=D - n),
+                      dict(tag='ppt', c='gram', M=_g(pt, UPB_SCALE), A=_g(_gram(pt, D), UPB_SCALE), cols=D)]
+            ev.append(dict(op='upbnum', kind=kind, args=repr(args), S=UPB_SCALE, size=n, dim=D, A=_g(A, UPB_SCALE), B=_g(B, UPB_SCALE), prod=_g(prod, UPB_SCALE), bes=_g(bes, UPB_SCALE), claims=claims))
+        except Exception as ex:
+            ctx.violation('C18:exception:load_upb', 'load_upb(%r, %r) raised %s: %s' % (kind, args, type(ex).__name__, str(ex)[:140]), dict(kind=kind, args=repr(args)))
+    return ev
+
+
 def run(ctx):
     import numqi
     quick = ctx.tier == 'quick'
@@ -266,7 +298,7 @@ def run(ctx):
                 'UPB kinds whose vectors are single-radical Gaussian-integer vectors validated by TLC (orthonormal product set, rank D-|UPB|) and their BES compared with the exact complementary projector; '
                 'closed-form REE/EOF/GME of Werner/isotropic states: exact zero on the separable range incl. the end point; the catalogued orthonormal measurement bases of numqi.unique_determine (Chebyshev 4PB/5PB, element-probing eq. 9) by rounded projectors with rank-one Gram certificates; distinct by (constructor, arguments)' % (3 if quick else 4, 4 if quick else 5))
     ctx.assumptions = ['TLC/SANY correct', 'tolerance 1e-12 on constructor entries']
-    ctx.not_covered = ['UPB kinds with nested radicals or roots of unity (listed in evidence)', 'agreement of the closed forms with the generic routines on the entangled range',
+    ctx.not_covered = ['multipartite UPB kinds with nested radicals or roots of unity (the bipartite ones are validated on rounded outputs: upbnum events)', 'agreement of the closed forms with the generic routines on the entangled range',
                        'Wtype / Dicke constructors (Dicke is covered by C17)']
     r = tlc.run('catalogue/MC_States.tla', 'catalogue/MC_States_%s.cfg' % ('q' if quick else 't'), dump=True, timeout=3000)
     ctx.add_model('MC_States', r)
@@ -274,7 +306,7 @@ def run(ctx):
     replay_states(ctx, states)
     ctx.traces += len(states)
     run_povm(ctx)
-    ev = upb_events(ctx) + closed_events(ctx) + bases_events(ctx, quick)
+    ev = upb_events(ctx) + closed_events(ctx) + bases_events(ctx, quick) + upbnum_events(ctx, quick)
     acc, rej, results = tlc.validate_events('catalogue/Trace_Catalogue.tla', 'catalogue/Trace_Catalogue.cfg', ev, shards=8)
     for r in results:
         ctx.states += r.distinct
@@ -285,6 +317,8 @@ def run(ctx):
         e = ev[gi]
         if e['op'] == 'upb':
             ctx.violation('C18:load_upb:orthonormal-product:%s' % e['kind'], 'UPB is not an orthonormal set of product vectors / complement rank differs from D-|UPB|', dict(kind=e['kind']))
+        elif e['op'] == 'upbnum':
+            ctx.violation('C18:load_upb:numeric:%s' % e['kind'], 'load_upb(%s, %s): local vectors not normalised / members not pairwise orthogonal / the returned state is not the normalised complementary projector, PSD of rank D-|UPB| and PPT' % (e['kind'], e['args']), dict(kind=e['kind'], args=e['args']))
         elif e['op'] == 'bases':
             ctx.violation('C18:%s:bases' % e['fn'], '%s(d=%d, flag=%s, alpha=%s): not the documented number of orthonormal bases / a projector is not Hermitian rank-one PSD / a block is not orthogonal or does not resolve the identity'
                           % (e['fn'], e['d'], e['flag'], e['alpha']), dict(fn=e['fn'], d=e['d'], flag=e['flag'], alpha=e['alpha']))
